@@ -23,7 +23,8 @@ def negative_stream(res, rnd, tier, seed, prop):
         muts = [("assign-template", t) for t in mutants.assignment_templates()]
     else:
         muts = [("template", t) for t in mutants.narrowing_templates()] + \
-            [("assign-template", t) for t in mutants.assignment_templates()] + mutants.mutants(rnd, base, 2)
+            [("assign-template", t) for t in mutants.assignment_templates()] + \
+            [("union-operand-template", t) for t in mutants.union_operand_templates()] + mutants.mutants(rnd, base, 2)
     recs = P.run_programs([m for _, m in muts], broken_model=True)
     res.streams["negative"] = dict(programs=len(muts))
     acc = 0
